@@ -313,7 +313,7 @@ def run_generic(prop: str, tier: str) -> int:
     rng = random.Random(seed() * 71 + 3)
     bases, pm = base_programs(wd, b["bases"], rng, harvest=2 if tier == "quick" else 8)
     nb = max(len(v) for v in bases.values())
-    consts = {"NBases": nb, "MaxPos": b["maxpos"], "MaxOps": 1, "OpKinds": POSOPS.replace("}", ', "Soup", "DeepNest", "Bytes"}'), "SoupAlphabet": 16, "MaxSoup": b["soup"], "NestDepths": b["nest"],
+    consts = {"NBases": nb, "MaxPos": b["maxpos"], "MaxOps": 1, "OpKinds": POSOPS.replace("}", ', "Soup", "DeepNest", "Bytes"}'), "SoupAlphabet": 19, "MaxSoup": b["soup"], "NestDepths": b["nest"],
               "ByteKinds": "{" + ", ".join(str(i) for i in range(1, len(BYTE_KINDS) + 1)) + "}"}
     m = tlc.run("Mutations", tlc.cfg(consts, spec="Spec", invariants=["ChainBounded"]), wd, dump=True)
     muts = [(st["base"], [dict(o) for o in st["ops"]]) for st in read_dump(m.dump)]
@@ -433,7 +433,7 @@ def run_generic(prop: str, tier: str) -> int:
         coverage={
             "states": states, "transitions": trans, "traces_validated_against_impl": len(events) + len(cli_events), "exhaustive": False,
             "samples": [{"language": meta[k][0], "base": meta[k][1], "ops": meta[k][2], "input_head": (jobs[k][1][:80] if isinstance(jobs[k][1], str) else jobs[k][1][:40].hex())} for k in (len(jobs) // 5, len(jobs) // 2, len(jobs) - 1)],
-            "bounds": {"bases_per_language": {l: len(v) for l, v in bases.items()}, "abstract_positions": b["maxpos"], "soup_alphabet": 16, "max_soup": b["soup"], "nest_depths": b["nest"], "byte_kinds": BYTE_KINDS,
+            "bounds": {"bases_per_language": {l: len(v) for l, v in bases.items()}, "abstract_positions": b["maxpos"], "soup_alphabet": 19, "max_soup": b["soup"], "nest_depths": b["nest"], "byte_kinds": BYTE_KINDS,
                        "chains_of_two": b["chains"], "mutation_states": len(muts), "inputs": len(jobs), "events_with_token_table": with_tables, "cli_events": len(cli_events)},
             "model": {"module": "Mutations.tla (+ CheckNaming.tla, Program.tla for the bases)", "actions": m.coverage},
             "acceptor": {"module": "MeasureTrace.tla / Measure.tla", "events": len(events) + len(cli_events), "rejected": len(rejected)},
